@@ -1,16 +1,19 @@
 import PrimaiteModel.Model.Basic
 import PrimaiteModel.Model.Link
+import PrimaiteModel.Model.LinkAccept
 open Primaite Primaite.Link
 
 /-
 Line protocol (one answer line per input line):
 
   link <bw> <enA> <enB>          append a wired link                      -> ok
-  chan <cap> <en0> <en1> ...     append a wireless channel                -> ok
+  chan <cap0,cap1,...> <en0> <en1> ...   append a wireless channel (hz); cap_i = capacity of interface i's frequency name -> ok
   tick                           Network.pre_timestep                     -> dump
   act <event tokens>             one top-level action (a forest)          -> records ` | ` dump
   dump                                                                    -> dump
   reset                          (handled by runDriver)                   -> ok
+  far <h|r|s> <en> <mac> <ip> <plen> <dstMac> <dstIp> <ttl> <ownIp,ownIp,...|->
+                                 answer of the far interface's receive_frame (C08's acceptance model) -> 1 | 0
 
 event tokens:   S k a s acc [ events ]     wired send on link k from end A (a=1) / B (a=0), size s, far answer acc
                 W c i s [ events ]         wireless send on channel c from interface i
@@ -30,7 +33,8 @@ def showRec (r : Rec) : String :=
 
 def dump (n : Net) : String :=
   " ".intercalate (n.links.map fun l => s!"L:{l.bw}:{l.load}:{showBool l.enA}{showBool l.enB}") ++ " / " ++
-  " ".intercalate (n.chans.map fun c => s!"C:{c.cap}:{c.load}:{"".intercalate (c.en.map showBool)}")
+  " ".intercalate (n.chans.map fun c =>
+    s!"C:{",".intercalate (c.caps.map toString)}:{c.load}:{"".intercalate (c.en.map showBool)}")
 
 mutual
 /-- Parse one event from the token list (fuel = number of tokens). -/
@@ -67,6 +71,11 @@ def parseEvs : Nat → List String → Option (List Ev × List String)
     | none => none
 end
 
+def parseNats (ws : List String) : Option (List Nat) :=
+  ws.foldr (fun w acc => match w.toNat?, acc with
+    | some b, some bs => some (b :: bs)
+    | _, _ => none) (some [])
+
 def parseBools (ws : List String) : Option (List Bool) :=
   ws.foldr (fun w acc => match parseBool w, acc with
     | some b, some bs => some (b :: bs)
@@ -77,9 +86,10 @@ def step' (n : Net) : List String → Net × String
     match bw.toNat?, parseBool a, parseBool b with
     | some bw, some a, some b => ({ n with links := n.links ++ [{ bw, load := 0, enA := a, enB := b }] }, "ok")
     | _, _, _ => (n, "bad-op")
-  | "chan" :: cap :: flags =>
-    match cap.toNat?, parseBools flags with
-    | some cap, some en => ({ n with chans := n.chans ++ [{ cap, load := 0, en }] }, "ok")
+  | "chan" :: caps :: flags =>
+    match parseNats (caps.splitOn ","), parseBools flags with
+    | some caps, some en =>
+      if caps.length == en.length then ({ n with chans := n.chans ++ [{ caps, load := 0, en }] }, "ok") else (n, "bad-op")
     | _, _ => (n, "bad-op")
   | ["tick"] => let r := step n .tick; (r.1, dump r.1)
   | "act" :: toks =>
@@ -88,6 +98,17 @@ def step' (n : Net) : List String → Net × String
       let r := step n (.act evs)
       (r.1, " ".intercalate (r.2.map showRec) ++ " | " ++ dump r.1)
     | _ => (n, "bad-op")
+  | ["far", kind, en, mac, ip, plen, dmac, dip, ttl, own] =>
+    let kind? : Option Forward.Kind := match kind with
+      | "h" => some .host | "r" => some .router | "s" => some .switch | _ => none
+    let own? := if own == "-" then some [] else parseNats (own.splitOn ",")
+    match kind?, parseBool en, mac.toNat?, ip.toNat?, plen.toNat?, dmac.toNat?, dip.toNat?, ttl.toInt?, own? with
+    | some kind, some en, some mac, some ip, some plen, some dmac, some dip, some ttl, some own =>
+      let nd := farNode kind (own.map (BitVec.ofNat 32))
+      let ifc : Forward.Iface := { mac, ip := BitVec.ofNat 32 ip, plen, enabled := en }
+      let f : Forward.Frame := { id := 0, srcMac := 0, dstMac := dmac, srcIp := 0, dstIp := BitVec.ofNat 32 dip, ttl, pl := .dataReq }
+      (n, showBool (farAnswer nd ifc f))
+    | _, _, _, _, _, _, _, _, _ => (n, "bad-op")
   | ["dump"] => (n, dump n)
   | _ => (n, "bad-op")
 
